@@ -399,9 +399,197 @@ func genKept(c *lib.Ctx) {
 	}
 }
 
+// ---------------------------------------------------------------- nothing behind the authenticator takes effect
+
+// authUID reads the first unique-identifier field in front of the authenticator with the
+// generator's own field walk (the identifier the AEAD covers).
+func authUID(b []byte) []byte {
+	for _, f := range ntsx.Walk(b) {
+		if f.Type == 0x404 {
+			return nil
+		}
+		if f.Type == 0x104 {
+			return b[f.Off+4 : f.Off+f.Len]
+		}
+	}
+	return nil
+}
+
+func authField(b []byte) []byte {
+	for _, f := range ntsx.Walk(b) {
+		if f.Type == 0x404 {
+			return b[f.Off : f.Off+f.Len]
+		}
+	}
+	return nil
+}
+
+// genTrail: one association, two outstanding requests A and B, the genuine responses RA and RB.
+// An attacker without keys appends extension fields behind the authenticator of a genuine
+// packet (the identifier of the other request, which travels in clear; cookies; placeholders; a
+// second authenticator; unknown fields; padding) — bytes the AEAD does not cover. Oracles, all
+// from what the generator built itself:
+//   - RB+trailer presented for request A is rejected (the authenticated identifier is B's);
+//   - RB+trailer presented for request B, if accepted, stores exactly the cookies of plain RB;
+//   - request+trailer, if served, is served like the plain request: same cookies handed to the
+//     listener, and the reply carries the request's authenticated identifier and as many cookies.
+func genTrail(c *lib.Ctx) {
+	r := c.Rand.Fork("trail")
+	rounds := c.Scale(6, 40)
+	for ri := 0; ri < rounds; ri++ {
+		c.Comment(fmt.Sprintf("trail %d", ri))
+		s := ntsx.NewSession(r)
+		keys := map[int][]byte{1: r.Bytes(32)}
+		var pool [][]byte
+		for i := 0; i < 1+r.Intn(4); i++ {
+			pool = append(pool, ntsx.IssueCookie(c, r, s, keys[1], 1))
+		}
+		if pool[0] == nil {
+			continue
+		}
+		reqA, uidA, _ := ntsx.Request(c, r, pool, s.C2S)
+		reqB, uidB, _ := ntsx.Request(c, r, pool[:1+r.Intn(len(pool))], s.C2S)
+		if reqA == nil || reqB == nil || bytes.Equal(uidA, uidB) {
+			continue
+		}
+		respA, okA := ntsx.OkHex(ntsx.Reply(c, r, reqA, keys, 1, len(ntsx.Walk(reqA))+2))
+		respB, okB := ntsx.OkHex(ntsx.Reply(c, r, reqB, keys, 1, len(ntsx.Walk(reqB))+2))
+		if !okA || !okB {
+			continue
+		}
+		// what the generator knows: RB authenticates B's identifier (its own walk of its own packet)
+		if !bytes.Equal(authUID(respB), uidB) || !bytes.Equal(authUID(respA), uidA) {
+			c.Fail("complete:reply:uid", "the reply does not carry the request's identifier in front of its authenticator", nil, nil)
+			continue
+		}
+		respOp := func(b, id []byte) string {
+			return fmt.Sprintf("nts.resp %s %s %s", lib.Hex(b), lib.Hex(s.S2C), lib.Hex(id))
+		}
+		plainB := ntsx.Do(c, respOp(respB, uidB))
+		if !ntsx.IsOK(plainB) {
+			continue // completeness is the main stream's
+		}
+		uidF := func(id []byte) []byte { return ntsx.RawField(0x104, id) }
+		junkCk := ntsx.RawField(0x204, r.Bytes(len(pool[0])))
+		trailers := []struct {
+			kind string
+			b    []byte
+		}{
+			{"uid", uidF(uidA)},
+			{"uid-uid", cat(uidF(uidA), uidF(uidA))},
+			{"unknown-uid", cat(ntsx.RawField(0x4204, r.Bytes(28)), uidF(uidA))},
+			{"uid-zeros", cat(uidF(uidA), make([]byte, 4+4*r.Intn(12)))},
+			{"cookie-uid", cat(junkCk, uidF(uidA))},
+			{"uid-cookie", cat(uidF(uidA), junkCk)},
+			{"placeholder-uid", cat(ntsx.RawField(0x304, make([]byte, len(pool[0]))), uidF(uidA))},
+			{"auth-uid", cat(authField(respA), uidF(uidA))},
+			{"uid-auth", cat(uidF(uidA), authField(respA))},
+			{"whole-response", respA[48:]},
+			{"cookie", junkCk},
+			{"cookies", cat(junkCk, ntsx.RawField(0x204, pool[0]), junkCk)},
+			{"own-uid", uidF(uidB)},
+			{"random", r.Bytes(28 + 4*r.Intn(20))},
+		}
+		for _, t := range trailers {
+			m := cat(respB, t.b)
+			c.Count("trail:response:" + t.kind)
+			decOp := "nts.dec " + lib.Hex(m)
+			ntsx.NoCrash(c, decOp, ntsx.Do(c, decOp), "DecodePacket on a response with fields behind the authenticator ("+t.kind+")")
+			// for the other request
+			op := respOp(m, uidA)
+			ans := ntsx.Do(c, op)
+			ntsx.NoCrash(c, op, ans, "a response with fields behind the authenticator ("+t.kind+")")
+			if ntsx.IsOK(ans) {
+				c.Fail("sound:response:trailing-uid", "a genuine response to request B followed by unauthenticated fields ("+t.kind+
+					") is accepted as the response to request A: the identifier compared is not the authenticated one",
+					[]string{respOp(respB, uidA), op}, map[string]any{"trailer": t.kind, "uidA": lib.Hex(uidA), "uidB": lib.Hex(uidB), "trailer_bytes": lib.Hex(t.b)})
+			} else {
+				c.Count("trail:response:for-A-rejected")
+			}
+			// for its own request: nothing behind the authenticator reaches the cookie pool
+			op = respOp(m, uidB)
+			ans = ntsx.Do(c, op)
+			ntsx.NoCrash(c, op, ans, "a response with fields behind the authenticator ("+t.kind+")")
+			if ntsx.IsOK(ans) && ans != plainB {
+				c.Fail("sound:response:trailing-cookie", "a genuine response followed by unauthenticated fields ("+t.kind+
+					") is accepted and stores cookies other than the authenticated ones",
+					[]string{respOp(respB, uidB), op}, map[string]any{"trailer": t.kind, "plain": plainB, "got": ans})
+			} else if ntsx.IsOK(ans) {
+				c.Count("trail:response:for-B-accepted-same-cookies")
+			} else {
+				c.Count("trail:response:for-B-rejected")
+			}
+		}
+
+		// ---- server side: the request with fields behind its authenticator
+		reqOp := func(b []byte) string { return fmt.Sprintf("nts.req %s %s", lib.Hex(b), lib.Hex(s.C2S)) }
+		plainReq := ntsx.Do(c, reqOp(reqB))
+		ncookies := func(resp []byte) (int, bool) {
+			a := ntsx.Do(c, respOp(resp, uidB))
+			if !ntsx.IsOK(a) {
+				return 0, false
+			}
+			return len(ntsx.ParseHexList(strings.TrimSpace(strings.TrimPrefix(a, "ok")))), true
+		}
+		nPlain, okPlain := ncookies(respB)
+		ph := ntsx.RawField(0x304, make([]byte, len(pool[0])))
+		rtrailers := []struct {
+			kind string
+			b    []byte
+		}{
+			{"uid", uidF(uidA)},
+			{"placeholders", cat(ph, ph, ph)},
+			{"cookie", ntsx.RawField(0x204, pool[0])},
+			{"uid-placeholder", cat(uidF(uidA), ph)},
+			{"auth-uid", cat(authField(reqA), uidF(uidA))},
+			{"whole-request", reqA[48:]},
+		}
+		for _, t := range rtrailers {
+			m := cat(reqB, t.b)
+			c.Count("trail:request:" + t.kind)
+			op := reqOp(m)
+			ans := ntsx.Do(c, op)
+			ntsx.NoCrash(c, op, ans, "a request with fields behind the authenticator ("+t.kind+")")
+			if ntsx.IsOK(ans) && ntsx.IsOK(plainReq) && ans != plainReq {
+				c.Fail("sound:request:trailing-field", "a genuine request followed by unauthenticated fields ("+t.kind+
+					") is accepted with cookies other than the authenticated ones", []string{reqOp(reqB), op},
+					map[string]any{"trailer": t.kind, "plain": plainReq, "got": ans})
+			}
+			rans := ntsx.Reply(c, r, m, keys, 1, len(ntsx.Walk(m))+2)
+			ntsx.NoCrash(c, "srv.reply", rans, "the server branch on a request with fields behind the authenticator ("+t.kind+")")
+			rep, ok := ntsx.OkHex(rans)
+			if !ok {
+				c.Count("trail:request:not-served")
+				continue
+			}
+			if !bytes.Equal(authUID(rep), uidB) {
+				c.Fail("sound:reply:trailing-uid", "the reply to a genuine request followed by unauthenticated fields ("+t.kind+
+					") echoes an identifier other than the authenticated one", []string{op},
+					map[string]any{"trailer": t.kind, "uidB": lib.Hex(uidB), "echoed": lib.Hex(authUID(rep))})
+				continue
+			}
+			if n, ok := ncookies(rep); okPlain && ok && n != nPlain {
+				c.Fail("sound:reply:trailing-placeholder", fmt.Sprintf("the reply to a genuine request followed by unauthenticated fields (%s) carries %d cookies, the reply to the request itself %d",
+					t.kind, n, nPlain), []string{op}, map[string]any{"trailer": t.kind})
+				continue
+			}
+			c.Count("trail:request:served-as-plain")
+		}
+	}
+}
+
+func cat(bs ...[]byte) []byte {
+	var out []byte
+	for _, b := range bs {
+		out = append(out, b...)
+	}
+	return out
+}
+
 func main() {
 	ntsx.Main(func(c *lib.Ctx) {
 		gen(c)
 		genKept(c)
+		genTrail(c)
 	})
 }
